@@ -264,6 +264,128 @@ fn client_byte_slice_range<'a>(r: &Rope<'a>, a: usize, b: usize) -> (o: Rope<'a>
 """
 
 
+def slice_proof(g, FN, unchecked):
+    """the proof script shared by get_byte_slice_impl and byte_slice_unchecked (same algorithm; the unchecked variant
+    replaces every `get` by `get_unchecked`, whose safety precondition the same facts discharge)"""
+    RET_EMPTY = r"return\s+Rope::new\(\);" if unchecked else r"return\s+Ok\(Rope::new\(\)\);"
+    RET_SAME = r"return\s+Rope::from\(unsafe\s*\{\s*chunk\.get_unchecked\(start\.\.end\)" if unchecked else r"return\s+chunk\s*\.get\(start\.\.end\)"
+    FIRST = r"let\s+chunk\s*=\s*unsafe\s*\{\s*chunk\.get_unchecked\(start\.\.\)" if unchecked else r"if\s+let\s+Some\(chunk\)\s*=\s*chunk\.get\(start\.\.\)"
+    LAST = r"let\s+chunk\s*=\s*unsafe\s*\{\s*chunk\.get_unchecked\(\.\.end\)" if unchecked else r"if\s+let\s+Some\(chunk\)\s*=\s*chunk\.get\(\.\.end\)"
+    c5_len_closure(g, FN)
+    T = "Rope::" + FN
+    g.body_start(FN, T + ".ghost.b", "ghost", "let ghost b = self.bytes();")
+    g.body_start(FN, T + ".hint.len", "hint", "proof { self.lemma_last(); }")
+    g.at(FN, "before", r"match\s+&self\.repr\s*\{", T + ".hint.resolved", "hint",
+         "proof {\n"
+         "  assert(start_range <= end_range <= b.len());\n"
+         "  assert(start_range == lo_of(range.0) && end_range == hi_of(range.1, b.len() as int));\n"
+         "  if let Repr::Light(s) = self.repr { lemma_str_valid(s); is_char_boundary_start_end_of_seq(s.spec_bytes()); }\n"
+         "}", regex=True, nth=1)
+    g.at(FN, "before", RET_EMPTY, T + ".hint.nopiece", "hint",
+         "proof { lemma_no_piece(data@); lemma_glue(b, 0, 0, 0); }", regex=True, nth=1)
+    g.at(FN, "before", r"let\s+start_chunk_index\s*=", T + ".ghost.d", "ghost", "let ghost d = data@;", regex=True, nth=1, optional=False)
+    g.at(FN, "before", r"let\s+start_chunk_index\s*=", T + ".hint.sorted", "hint",
+         "proof { lemma_chunks_sorted(d); lemma_chunk_pos(d, 0); lemma_chunk_pos(d, d.len() - 1); }", regex=True, nth=1)
+    g.at(FN, "before", r"if\s+start_chunk_index\s*==\s*end_chunk_index\s*\{", T + ".ghost.scec", "ghost",
+         "let ghost sc = start_chunk_index as int;\nlet ghost ec = end_chunk_index as int;", regex=True, nth=1, optional=False)
+    g.at(FN, "before", r"if\s+start_chunk_index\s*==\s*end_chunk_index\s*\{", T + ".hint.found", "hint",
+         "proof {\n"
+         "  assert(0 <= sc < d.len() && d[sc].1 <= start_range);\n"
+         "  assert(sc + 1 < d.len() ==> start_range < d[sc + 1].1);\n"
+         "  assert(0 <= ec < d.len() && end_range <= d[ec].1 + clen(d, ec));\n"
+         "  assert(ec > 0 ==> d[ec - 1].1 + clen(d, ec - 1) <= end_range);\n"
+         "  if sc + 1 < d.len() { lemma_chunk_pos(d, sc); }\n"
+         "  if ec > 0 { lemma_chunk_pos(d, ec - 1); }\n"
+         "  assert(start_range <= d[sc].1 + clen(d, sc));\n"
+         "  assert(d[ec].1 <= end_range);\n"
+         "}", regex=True, nth=1)
+    g.at(FN, "before", RET_SAME, T + ".hint.same", "hint",
+         "proof { lemma_in_piece(d, sc, start_range as int, end_range as int); }", regex=True, nth=1)
+    g.at(FN, "before", RET_EMPTY, T + ".hint.empty", "hint",
+         "proof { lemma_chunks_order(d, ec, sc); lemma_empty_range(d, sc); lemma_glue(b, start_range as int, start_range as int, start_range as int); }", regex=True, nth=2)
+    g.at(FN, "before", r"for\s+i\s+in\s+start_chunk_index", T + ".hint.init", "hint",
+         "proof { lemma_chunks_wf_empty(); assert(raw@ =~= Seq::<(&str, usize)>::empty()); lemma_glue(b, start_range as int, start_range as int, start_range as int); rope_ax::axiom_vec_len_bound(data); }",
+         regex=True, nth=1)
+    g.loop(FN, 1, [
+        (T + ".loop1.frame", "contract",
+         "invariant sc == start_chunk_index, ec == end_chunk_index, 0 <= sc < ec < d.len(), d == data@, chunks_wf(d), b == chunks_bytes(d), b.len() <= usize::MAX, b == self.bytes(),\n"
+         "  d[sc].1 <= start_range <= d[sc].1 + clen(d, sc), d[ec].1 <= end_range <= d[ec].1 + clen(d, ec), start_range <= end_range <= b.len(),\n"
+         "  start_range == lo_of(range.0) && end_range == hi_of(range.1, b.len() as int)," + (" is_cb(b, start_range as int), is_cb(b, end_range as int)," if unchecked else "")),
+        (T + ".loop1.inv", "contract",
+         "invariant chunks_wf(raw@), len == chunks_bytes(raw@).len(),\n"
+         f"  chunks_bytes(raw@) == b.subrange(start_range as int, {POS}),\n"
+         f"  start_range <= {POS} <= b.len(),\n"
+         "  i > sc ==> is_cb(b, start_range as int),\n"
+         "  i > ec ==> is_cb(b, end_range as int),"),
+    ])
+    g.loop_body_start(FN, 1, T + ".ghost.r0", "ghost", "let ghost r0 = raw@;")
+    g.loop_body_start(FN, 1, T + ".hint.step", "hint",
+                      "proof {\n"
+                      "  lemma_chunk_pos(d, i as int);\n"
+                      "  if i < ec { lemma_chunk_pos(d, i + 1); lemma_chunks_order(d, i as int, ec); }\n"
+                      "  if i > sc { lemma_chunks_order(d, sc, i as int); }\n"
+                      "}")
+    g.at(FN, "before", FIRST, T + ".hint.first", "hint",
+         "proof { lemma_in_piece(d, sc, start_range as int, d[sc].1 + clen(d, sc)); }", regex=True, nth=1)
+    g.at(FN, "before", r"raw\.push\(\(chunk, len\)\);", T + ".hint.first.push", "hint",
+         "proof { lemma_chunks_push(r0, (chunk, len)); lemma_glue(b, start_range as int, start_range as int, d[sc].1 + clen(d, sc)); }", regex=True, nth=1)
+    g.at(FN, "before", LAST, T + ".hint.last", "hint",
+         "proof { lemma_in_piece(d, ec, d[ec].1 as int, end_range as int); }", regex=True, nth=1)
+    g.at(FN, "before", r"raw\.push\(\(chunk, len\)\);", T + ".hint.last.push", "hint",
+         "proof { lemma_chunks_push(r0, (chunk, len)); lemma_glue(b, start_range as int, d[ec].1 as int, end_range as int); }", regex=True, nth=2)
+    g.at(FN, "before", r"raw\.push\(\(chunk, len\)\);", T + ".hint.mid.push", "hint",
+         "proof {\n"
+         "  lemma_in_piece(d, i as int, d[i as int].1 as int, d[i as int].1 + clen(d, i as int)); lemma_chunks_push(r0, (*chunk, len));\n"
+         "  lemma_glue(b, start_range as int, d[i as int].1 as int, d[i as int].1 + clen(d, i as int));\n"
+         "  assert(chunk.spec_bytes().subrange(0, clen(d, i as int)) =~= chunk.spec_bytes());\n"
+         "}", regex=True, nth=3)
+    g.body_start(FN, "canary." + T, "canary", "proof { assert(false); }")
+    g.loop_body_start(FN, 1, "canary." + T + ".loop1", "canary", "proof { assert(false); }")
+
+
+def r2f_for_each(it, fn):
+    """R2f: `(A..B).for_each(|i| { BODY });` -> `for i in A..B { BODY }` (definition of Iterator::for_each on a range;
+    Verus has no closures capturing `&mut` locals)"""
+    s = it.buf.text
+    mask = code_mask(s)
+    lo, _, hi = it.fn_span(fn)
+    ms = [m for m in re.finditer(r"\(([^()\n]+?)\.\.([^()\n]+?)\)\.for_each\(\|(\w+)\|\s*\{", s) if lo <= m.start() < hi and mask[m.start()]]
+    if len(ms) != 1:
+        raise Lost(f"rule R2f: expected 1 for_each in {fn}, found {len(ms)}")
+    m = ms[0]
+    bo = m.end() - 1
+    bc = match_close(s, mask, bo)
+    body = s[bo + 1:bc].rstrip()
+    if re.search(r"\breturn\b", "".join(c if k else " " for c, k in zip(body, mask[bo + 1:bo + 1 + len(body)]))):
+        raise Lost("rule R2f: closure body contains `return`")
+    tail = re.match(r"\);", s[bc + 1:])
+    if not tail:
+        raise Lost("rule R2f: for_each is not a statement")
+    new = f"for {m.group(3)} in {m.group(1)}..{m.group(2)} {{{body}\n        }}"
+    l, _ = it.buf.pos(m.start())
+    it.rules_applied.append({"rule": "R2f", "file": it.relpath, "line": it._repo_line(l), "from": m.group(0), "to": f"for {m.group(3)} in {m.group(1)}..{m.group(2)} {{ .. }}"})
+    it.buf.replace_span(m.start(), bc + 1 + tail.end(), new, ("rule", "R2f"))
+
+
+def build_unchecked(u):
+    """byte_slice_unchecked: the six unchecked accessors are reached only within their safety preconditions when the
+    caller keeps the documented contract (range in bounds, start <= end, both on char boundaries) - C19"""
+    FN = "byte_slice_unchecked"
+    g = u.method("src/rope.rs", IMPL, FN)
+    g2_universal_range(g, FN)
+    c3_search_closure(g, FN, 1, "ensures o == cmp3(p_item.1, start_range)")
+    c3_search_closure(g, FN, 1, "requires p_item.1 + p_item.0.spec_bytes().len() <= usize::MAX\n  ensures o == cmp3((p_item.1 + p_item.0.spec_bytes().len()) as usize, end_range)")
+    c4_simple_closure(g, FN)
+    r2f_for_each(g, FN)
+    d3_capacity(g, FN)
+    g.sig(FN, [
+        ("Rope::byte_slice_unchecked.requires", "contract", "requires self.wf(), range_ok(self.bytes(), lo_of(range.0), hi_of(range.1, self.bytes().len() as int))"),
+        ("Rope::byte_slice_unchecked.ensures", "contract", "ensures r.wf(), r.bytes() == self.bytes().subrange(lo_of(range.0), hi_of(range.1, self.bytes().len() as int))"),
+    ], ret="r")
+    slice_proof(g, FN, True)
+    u.contracted += [("Rope::byte_slice_unchecked", "src/rope.rs")]
+
+
 def build_wrappers(u):
     """byte_slice (panics on an invalid range - so its precondition is range_ok and the panic closure gets `requires false`)
     and get_byte_slice (None exactly for invalid ranges)"""
@@ -318,77 +440,9 @@ def build_slice(u):
          "    Err(_) => !range_ok(self.bytes(), lo_of(range.0), hi_of(range.1, self.bytes().len() as int)),\n"
          "  })"),
     ], ret="r")
-    c5_len_closure(g, "get_byte_slice_impl")
-    FN = "get_byte_slice_impl"
-    g.body_start(FN, "Rope::get_byte_slice_impl.ghost.b", "ghost", "let ghost b = self.bytes();")
-    g.body_start(FN, "Rope::get_byte_slice_impl.hint.len", "hint", "proof { self.lemma_last(); }")
-    g.at(FN, "before", r"match\s+&self\.repr\s*\{", "Rope::get_byte_slice_impl.hint.resolved", "hint",
-         "proof {\n"
-         "  assert(start_range <= end_range <= b.len());\n"
-         "  assert(start_range == lo_of(range.0) && end_range == hi_of(range.1, b.len() as int));\n"
-         "  if let Repr::Light(s) = self.repr { lemma_str_valid(s); is_char_boundary_start_end_of_seq(s.spec_bytes()); }\n"
-         "}", regex=True, nth=1)
-    g.at(FN, "before", r"return\s+Ok\(Rope::new\(\)\);", "Rope::get_byte_slice_impl.hint.nopiece", "hint",
-         "proof { lemma_no_piece(data@); lemma_glue(b, 0, 0, 0); }", regex=True, nth=1)
-    g.at(FN, "before", r"let\s+start_chunk_index\s*=", "Rope::get_byte_slice_impl.ghost.d", "ghost", "let ghost d = data@;", regex=True, nth=1, optional=False)
-    g.at(FN, "before", r"let\s+start_chunk_index\s*=", "Rope::get_byte_slice_impl.hint.sorted", "hint",
-         "proof { lemma_chunks_sorted(d); lemma_chunk_pos(d, 0); lemma_chunk_pos(d, d.len() - 1); }", regex=True, nth=1)
-    g.at(FN, "before", r"if\s+start_chunk_index\s*==\s*end_chunk_index\s*\{", "Rope::get_byte_slice_impl.ghost.scec", "ghost",
-         "let ghost sc = start_chunk_index as int;\nlet ghost ec = end_chunk_index as int;", regex=True, nth=1, optional=False)
-    g.at(FN, "before", r"if\s+start_chunk_index\s*==\s*end_chunk_index\s*\{", "Rope::get_byte_slice_impl.hint.found", "hint",
-         "proof {\n"
-         "  assert(0 <= sc < d.len() && d[sc].1 <= start_range);\n"
-         "  assert(sc + 1 < d.len() ==> start_range < d[sc + 1].1);\n"
-         "  assert(0 <= ec < d.len() && end_range <= d[ec].1 + clen(d, ec));\n"
-         "  assert(ec > 0 ==> d[ec - 1].1 + clen(d, ec - 1) <= end_range);\n"
-         "  if sc + 1 < d.len() { lemma_chunk_pos(d, sc); }\n"
-         "  if ec > 0 { lemma_chunk_pos(d, ec - 1); }\n"
-         "  assert(start_range <= d[sc].1 + clen(d, sc));\n"
-         "  assert(d[ec].1 <= end_range);\n"
-         "}", regex=True, nth=1)
-    g.at(FN, "before", r"return\s+chunk\s*\.get\(start\.\.end\)", "Rope::get_byte_slice_impl.hint.same", "hint",
-         "proof { lemma_in_piece(d, sc, start_range as int, end_range as int); }", regex=True, nth=1)
-    g.at(FN, "before", r"return\s+Ok\(Rope::new\(\)\);", "Rope::get_byte_slice_impl.hint.empty", "hint",
-         "proof { lemma_chunks_order(d, ec, sc); lemma_empty_range(d, sc); lemma_glue(b, start_range as int, start_range as int, start_range as int); }", regex=True, nth=2)
-    g.at(FN, "before", r"for\s+i\s+in\s+start_chunk_index", "Rope::get_byte_slice_impl.hint.init", "hint",
-         "proof { lemma_chunks_wf_empty(); assert(raw@ =~= Seq::<(&str, usize)>::empty()); lemma_glue(b, start_range as int, start_range as int, start_range as int); rope_ax::axiom_vec_len_bound(data); }",
-         regex=True, nth=1)
-    g.loop(FN, 1, [
-        ("Rope::get_byte_slice_impl.loop1.frame", "contract",
-         "invariant sc == start_chunk_index, ec == end_chunk_index, 0 <= sc < ec < d.len(), d == data@, chunks_wf(d), b == chunks_bytes(d), b.len() <= usize::MAX, b == self.bytes(),\n"
-         "  d[sc].1 <= start_range <= d[sc].1 + clen(d, sc), d[ec].1 <= end_range <= d[ec].1 + clen(d, ec), start_range <= end_range <= b.len(),\n"
-         "  start_range == lo_of(range.0) && end_range == hi_of(range.1, b.len() as int),"),
-        ("Rope::get_byte_slice_impl.loop1.inv", "contract",
-         "invariant chunks_wf(raw@), len == chunks_bytes(raw@).len(),\n"
-         f"  chunks_bytes(raw@) == b.subrange(start_range as int, {POS}),\n"
-         f"  start_range <= {POS} <= b.len(),\n"
-         "  i > sc ==> is_cb(b, start_range as int),\n"
-         "  i > ec ==> is_cb(b, end_range as int),"),
-    ])
-    g.loop_body_start(FN, 1, "Rope::get_byte_slice_impl.ghost.r0", "ghost", "let ghost r0 = raw@;")
-    g.loop_body_start(FN, 1, "Rope::get_byte_slice_impl.hint.step", "hint",
-                      "proof {\n"
-                      "  lemma_chunk_pos(d, i as int);\n"
-                      "  if i < ec { lemma_chunk_pos(d, i + 1); lemma_chunks_order(d, i as int, ec); }\n"
-                      "  if i > sc { lemma_chunks_order(d, sc, i as int); }\n"
-                      "}")
-    g.at(FN, "before", r"if\s+let\s+Some\(chunk\)\s*=\s*chunk\.get\(start\.\.\)", "Rope::get_byte_slice_impl.hint.first", "hint",
-         "proof { lemma_in_piece(d, sc, start_range as int, d[sc].1 + clen(d, sc)); }", regex=True, nth=1)
-    g.at(FN, "before", r"raw\.push\(\(chunk, len\)\);", "Rope::get_byte_slice_impl.hint.first.push", "hint",
-         "proof { lemma_chunks_push(r0, (chunk, len)); lemma_glue(b, start_range as int, start_range as int, d[sc].1 + clen(d, sc)); }", regex=True, nth=1)
-    g.at(FN, "before", r"if\s+let\s+Some\(chunk\)\s*=\s*chunk\.get\(\.\.end\)", "Rope::get_byte_slice_impl.hint.last", "hint",
-         "proof { lemma_in_piece(d, ec, d[ec].1 as int, end_range as int); }", regex=True, nth=1)
-    g.at(FN, "before", r"raw\.push\(\(chunk, len\)\);", "Rope::get_byte_slice_impl.hint.last.push", "hint",
-         "proof { lemma_chunks_push(r0, (chunk, len)); lemma_glue(b, start_range as int, d[ec].1 as int, end_range as int); }", regex=True, nth=2)
-    g.at(FN, "before", r"raw\.push\(\(chunk, len\)\);", "Rope::get_byte_slice_impl.hint.mid.push", "hint",
-         "proof {\n"
-         "  lemma_in_piece(d, i as int, d[i as int].1 as int, d[i as int].1 + clen(d, i as int)); lemma_chunks_push(r0, (*chunk, len));\n"
-         "  lemma_glue(b, start_range as int, d[i as int].1 as int, d[i as int].1 + clen(d, i as int));\n"
-         "  assert(chunk.spec_bytes().subrange(0, clen(d, i as int)) =~= chunk.spec_bytes());\n"
-         "}", regex=True, nth=3)
-    g.body_start(FN, "canary.Rope::get_byte_slice_impl", "canary", "proof { assert(false); }")
-    g.loop_body_start(FN, 1, "canary.Rope::get_byte_slice_impl.loop1", "canary", "proof { assert(false); }")
+    slice_proof(g, "get_byte_slice_impl", False)
     build_wrappers(u)
+    build_unchecked(u)
     u.raw("}", ("glue", NAME))
     u.raw(GLUE_CLIENT, ("glue", NAME + ":client"))
     u.contracted += [("Rope::get_byte_slice_impl", "src/rope.rs")]
